@@ -169,7 +169,7 @@ def build_binary(pkg, overlay, out, tags="verif"):
     return out
 
 
-REPO_FRAME = re.compile(r"github\.com/buchgr/bazel-remote/v2/(cache|server|config|utils|ldap)[^\s]*\.[A-Za-z(]")
+REPO_FRAME = re.compile(r"github\.com/buchgr/bazel-remote/v2/(cache|server|config|utils/(?!verifhook)|ldap)[^\s]*\.[A-Za-z(]")
 
 
 class Job:
@@ -267,7 +267,7 @@ def finish(prop, level, tier, seed, jobs, t0, assumptions, rule, extra_cov=None,
     for job in jobs:
         if job.crash:
             m = REPO_FRAME.search(job.output or "")
-            if ("panic:" in job.output or "fatal error:" in job.output) and m:
+            if ("panic:" in job.output or "fatal error:" in job.output) and m and "test timed out" not in job.output:
                 frames = [l.strip() for l in job.output.splitlines() if REPO_FRAME.search(l) and "verifdrv" not in l and "/vf_" not in l]
                 key = "%s driver-crash %s" % (prop, (frames[0] if frames else "?")[:160])
                 violations.append({"key": key, "desc": "driver process crashed inside repository code:\n" + job.output[-3000:],
